@@ -13,8 +13,9 @@ PROP = "C06"
 
 
 def s1_group(src, nmembers, times, max_faults, assignors, join_versions):
-    cfg = {"member": {"auto_commit": True, "auto_commit_interval_ms": 150, "assignors": list(assignors)},
-           "versions": {11: join_versions}}
+    cfg = {"member": {"auto_commit": True, "auto_commit_interval_ms": 150, "assignors": list(assignors),
+                      "metadata_max_age_ms": 150},
+           "versions": {11: join_versions}, "extra_events": ("grow",), "vary_sync_delay": True}
     scenario, plan = GO.standard_scenario(src, cfg, nmembers, times, quiet=5.5,  # > 2 x (session + rebalance timeout): crashed members are expired well before the last 1.5 s
                                           fault_apis=(8, 10, 11, 12, 14), max_fault_requests=5, max_faults=max_faults)
     res = groupsim.run_group(src, cfg, scenario)
